@@ -137,4 +137,11 @@ theorem mux_isSome (parts : List (List (Int × Chan ℝ))) (h : parts ≠ []) : 
       | none => simp [hm] at this
       | some m' => simp
 
+theorem snrAddedLin_eq (args : List ℝ) (z : ℝ) :
+    args.foldl (fun acc s => acc + db2lin (-s)) z = z + (args.map (fun s => db2lin (-s))).sum := by
+  induction args generalizing z with
+  | nil => simp
+  | cons a r ih => simp only [List.foldl_cons, ih, List.map_cons, List.sum_cons]; ring
+
+
 end Gnpy.Spectrum
